@@ -257,6 +257,56 @@ func c14History(c *Ctx, idx int) {
 			if !barrier() {
 				return
 			}
+		case x >= 58 && x < 63 && len(beds) == 1:
+			shape.WriteString("k")
+			// a burst, and right behind it the control connection ends (FIN after the last event): every event of the burst was
+			// emitted on the control connection and received by the proxy, so it is owed to every registered client even though
+			// the proxy learns about the lost connection while it still has events of that connection to hand on
+			if !barrier() {
+				return
+			}
+			if !controlUp() {
+				r.Inconc("c14: no control connection before a burst")
+				return
+			}
+			ex := &expectation{must: map[*c14Client]bool{}, may: map[*c14Client]bool{}}
+			for _, cc := range clients {
+				if cc.registered && !cc.cl.IsClosed() {
+					ex.must[cc] = true
+				}
+			}
+			ctl := bed.Cluster.EstablishedControlConns()
+			nk := 2 + rng.Intn(24)
+			for k := 0; k < nk; k++ {
+				evSeq++
+				id := fmt.Sprintf("%d_%d", idx, evSeq)
+				ev := schemaEvent(id, rng.Intn(15))
+				injected[id] = ev
+				expect[id] = ex
+				if bed.Cluster.Emit(ev) < len(beds) {
+					delete(expect, id)
+				}
+				r.Obs("schema_events_injected", 1)
+			}
+			for _, x := range ctl {
+				x.CloseWrite()
+			}
+			waitFor(func() bool {
+				for _, x := range ctl {
+					if !x.IsClosed() {
+						return false
+					}
+				}
+				return true
+			}, 10*time.Second)
+			for _, x := range ctl {
+				x.Kill(false)
+			}
+			if !controlUp() {
+				r.Inconc("c14: control connection did not come back after it ended behind a burst")
+				return
+			}
+			r.Obs("bursts_followed_by_control_close", 1)
 		case x < 58:
 			shape.WriteString("f")
 			// control-connection failover between bursts
@@ -452,7 +502,7 @@ func runC14(c *Ctx) {
 	r := c.R
 	r.Assume("events are injected only on a control connection that is up; failover is forced between bursts")
 	r.Assume("EVENT frames are framed with the cluster's negotiated version whatever the client's version; content is compared after decoding")
-	r.Require("must_deliveries_checked", "topology_events_injected", "status_events_injected", "control_failovers", "zombie_rounds", "control_failovers_after_failed_refresh")
+	r.Require("must_deliveries_checked", "topology_events_injected", "status_events_injected", "control_failovers", "zombie_rounds", "control_failovers_after_failed_refresh", "bursts_followed_by_control_close")
 	n := c.Pick(160, 15000)
 	for i := 0; i < n; i++ {
 		if c.Replay != nil && c.Replay["kind"] == "c14" {
